@@ -117,3 +117,87 @@ def install_rng():
 def uninstall_all():
     stx.HOOKS.clear()
     npx.HOOKS.clear()
+
+
+# ------------------------------------------------------------------------------------------------
+# scipy.stats.<family>.fit
+#
+# contract (scipy.stats.rv_continuous.fit documentation, scipy 1.14):
+#  * fit(data, *shape_starts, loc=<start>, scale=<start>, f0=.., f<shape>=.., fix_<shape>=.., floc=.., fscale=..,
+#    method=.., optimizer=..) returns (shapes..., loc, scale);
+#  * a parameter fixed through one of its keywords is returned unchanged;
+#  * keywords other than the ones above raise TypeError("Unknown arguments: ..."); more positional start values
+#    than shapes raise TypeError; fixing every parameter raises ValueError; the same shape fixed under two names
+#    raises ValueError.
+# The estimates of the free parameters are arbitrary values (fresh symbols): nothing about optimisation quality
+# is modelled.
+
+FIT_LOG = []
+
+
+def fit_hook(fam, data, args, kw):
+    real = getattr(_sts, fam)
+    shapes = [s.strip() for s in real.shapes.split(",")] if real.shapes else []
+    k = len(shapes)
+    if len(args) > k:
+        raise TypeError("Too many input arguments.")
+    kw = dict(kw)
+    start = {"loc": kw.pop("loc", None), "scale": kw.pop("scale", None)}
+    kw.pop("optimizer", None)
+    kw.pop("method", None)
+    fixed = [None] * (k + 2)
+    for j, s in enumerate(shapes):
+        names = [n for n in (f"f{j}", f"f{s}", f"fix_{s}") if n in kw]
+        if len(names) > 1:
+            raise ValueError(f"Duplicate entries for {names}.")
+        if names:
+            fixed[j] = kw.pop(names[0])
+    if "floc" in kw:
+        fixed[k] = kw.pop("floc")
+    if "fscale" in kw:
+        fixed[k + 1] = kw.pop("fscale")
+    if kw:
+        raise TypeError(f"Unknown arguments: {kw}.")
+    if all(f is not None for f in fixed):
+        raise ValueError("All parameters fixed. There is nothing to optimize.")
+    n = len(FIT_LOG)
+    out = []
+    for i in range(k + 2):
+        if fixed[i] is not None:
+            out.append(fixed[i])
+        else:
+            t = z3.Real(f"fit{n}_{fam}_{i}")
+            e = engine()
+            if i != k:  # shapes and scale are positive
+                e.assume(t > 0)
+            out.append(SR(t))
+    FIT_LOG.append({"family": fam, "data": data, "shape_starts": tuple(args), "loc_start": start["loc"],
+                    "scale_start": start["scale"], "fixed": tuple(fixed), "result": tuple(out)})
+    return tuple(out)
+
+
+def install_fit():
+    del FIT_LOG[:]
+    stx.HOOKS["fit"] = fit_hook
+
+
+import contextlib
+
+
+@contextlib.contextmanager
+def record_real_fit(fam):
+    """concrete mode: observe what the real scipy.stats.<fam>.fit returns (recording wrapper, same behaviour)"""
+    dist = getattr(_sts, fam)
+    orig = dist.fit
+    log = []
+
+    def wrapper(data, *a, **k):
+        r = orig(data, *a, **k)
+        log.append({"args": a, "kw": dict(k), "result": tuple(r)})
+        return r
+
+    dist.fit = wrapper
+    try:
+        yield log
+    finally:
+        del dist.fit
